@@ -281,7 +281,22 @@ def fmt_shape(sh):
 
 
 def _drop(sh, kinds=("raise", "pad")):
-    return [e for e in sh if e[0] not in kinds]
+    out = [e for e in sh if e[0] not in kinds]
+    # a compact-size length followed by that many plain bytes is a var-string, however it is written or read
+    # (`n = read_varint(s); s.read(n)` / `read_varstr(s)`; `encode_varint(len(x)) + x` / `encode_varstr(x)`)
+    res = []
+    i = 0
+    while i < len(out):
+        e = out[i]
+        nxt = out[i + 1] if i + 1 < len(out) else None
+        if e[0] in ("varint", "count") and nxt is not None and nxt[0] == "bytes" and nxt[1] is None and nxt[2] == "" \
+                and (e[0] == "varint" or _same_field(e[1], nxt[3])):
+            res.append(("varstr", nxt[3], ""))
+            i += 2
+            continue
+        res.append(e)
+        i += 1
+    return res
 
 
 def _same_field(a, b):
